@@ -373,8 +373,11 @@ impl WalManager {
 
         // Replace active log
         let mut guard = self.active_log.lock();
-        if let Some(old_log) = guard.take() {
-            // Ensure old log is flushed
+        if let Some(mut old_log) = guard.take() {
+            // Ensure old log is flushed and durable before switching files:
+            // recovery reads the files in order and stops at the first gap.
+            old_log.writer.flush()?;
+            old_log.writer.get_ref().sync_all()?;
             drop(old_log);
         }
         *guard = Some(new_log);
